@@ -973,7 +973,7 @@ func rightBitshiftBigInt[T SimpleInt](i *BigInt, other T) Value {
 		return SmallInt(0).ToValue()
 	}
 	iGo := i.ToGoBigInt()
-	result := ToElkBigInt(iGo.Rsh(iGo, uint(other)))
+	result := ToElkBigInt((&big.Int{}).Rsh(iGo, uint(other)))
 	if result.IsSmallInt() {
 		return result.ToSmallInt().ToValue()
 	}
@@ -1097,15 +1097,18 @@ func (i *BigInt) RightBitshiftUInt8(other UInt8) Value {
 
 func leftBitshiftBigInt[T SimpleInt](i *BigInt, other T) Value {
 	if other < 0 {
-		return SmallInt(0).ToValue()
+		if -other < 0 {
+			return SmallInt(0).ToValue()
+		}
+		return rightBitshiftBigInt(i, -other)
 	}
 	iGo := i.ToGoBigInt()
-	return Ref(ToElkBigInt(iGo.Lsh(iGo, uint(other))))
+	return Ref(ToElkBigInt((&big.Int{}).Lsh(iGo, uint(other))))
 }
 
 func leftBitshiftBigIntUnsigned[T SimpleInt](i *BigInt, other T) *BigInt {
 	iGo := i.ToGoBigInt()
-	return ToElkBigInt(iGo.Lsh(iGo, uint(other)))
+	return ToElkBigInt((&big.Int{}).Lsh(iGo, uint(other)))
 }
 
 // Bitshift to the left by another integer value and return an error
